@@ -1,7 +1,8 @@
 P = dict(
     harness='c16_c20_reports.cpp',
     cxxflags=['-DVF_JUNIT'],
-    variants=['asan'],
+    variants=['asan', 'memcheck'],
+    memcheck_stride=dict(quick=20, thorough=20),
     post='reports',
     level='exploration',
     technique='runtime monitoring: generated runs executed by the real registry/runner, XML captured at the PlatformSpecificFOpen/FPuts/FClose seams, judged offline by Python expat (well-formedness) and a ground-truth comparison (faithfulness); ASan/UBSan build',
